@@ -24,7 +24,7 @@ NA = {
 CHECKS = {
  'C16': dict(engine='primsim', category='exploration', design_ref='DESIGN.md section 3 / C16',
    technique='deterministic simulation: seeded stream/cursor/EOF-fault simulation of the primitive decoders against a reference codec + cursor model',
-   text="Seeded deterministic simulation of the primitive decoders as stream behaviour: generated images from an independent reference codec, a cursor model, displacement between parses, and an injected end-of-file at every byte of every generated encoding; plus enumerated LEB128 prefixes and 24-bit values. The primitives are exercised as classes and as a DWARFStructs instance hands them out (every Dwarf_* integer attribute, both byte orders, formats and address sizes), and composed in abbreviation declarations (repeat-until with signed implicit constants). Sampling of values (boundary classes), complete EOF sweep per encoding: evidence, not proof.",
+   text="Seeded deterministic simulation of the primitive decoders as stream behaviour: generated images from an independent reference codec, a cursor model, displacement between parses, and an injected end-of-file at every byte of every generated encoding; plus enumerated LEB128 prefixes and 24-bit values. The primitives are exercised as classes and as a DWARFStructs instance hands them out (every Dwarf_* integer attribute, both byte orders, formats and address sizes; every fixed-encoding attribute form of the Dwarf_dw_form table for DWARF v2-v5 against the encoding the standard assigns to the form), and composed in abbreviation declarations (repeat-until with signed implicit constants). Sampling of values (boundary classes), complete EOF sweep per encoding: evidence, not proof.",
    note="Trusted: the 80-line reference codec in dst/engines/primsim.py and SimStream's BytesIO-compatible semantics. Initial-length words 0xffffff00..0xffffffef are accepted either way (DWARF v3 vs v4/v5 disagree)."),
  'C19': dict(engine='faultsim', category='fault_enumeration', design_ref='DESIGN.md section 3 / C19',
    technique='deterministic simulation with fault injection: enumerated and seeded stored-byte faults (truncation, substitution, structure-aware field corruption, random bytes) on a simulated disk with an I/O clock and read-request accounting',
